@@ -239,6 +239,22 @@ theorem C11_index_extend_id (key : α → κ) (hinj : Function.Injective key) (f
 
 end index
 
+/-- **texdata table of `_lmp_write_texinfo`** (keyed on the TexData object, i.e. an injective key):
+the index stored in the `k`-th texinfo record addresses, in the written texdata table, exactly the
+TexData of the `k`-th texinfo — whatever other TexData share its material name. -/
+theorem C11_texdata_index {α κ : Type} [DecidableEq κ] (key : α → κ) (hinj : Function.Injective key)
+    (tds : List α) (k : Nat) (hk : k < tds.length) :
+    ∃ i, (texdataTable key tds).1[k]? = some i ∧ (texdataTable key tds).2[i]? = some tds[k] := by
+  obtain ⟨_, _, hall⟩ := Finder.callAll_spec key tds (Finder.mk' key []) (Finder.mk'_inv key [])
+  obtain ⟨i, y, h1, h2, h3⟩ := hall k hk
+  exact ⟨i, h1, by rw [← hinj h3]; exact h2⟩
+
+/-- With a coarser key (material name only) the statement is **false**: two texdata `(name, size)`
+with the same name are merged and the second texinfo points at the first one's record. -/
+theorem C11_texdata_index_coarse_key_fails :
+    texdataTable (fun (t : Nat × Nat) => t.1) [(7, 256), (7, 512)] = ([0, 0], [(7, 256)]) := by
+  decide +kernel
+
 /-- Without the bound (the code as it was before the repair) the statement is **false**: with list
 `[1, 2]` and items `[2, 3]` the tail match at index 1 is accepted although the slice is `[2]`. -/
 theorem C11_index_extend_unbounded_fails :
